@@ -10,6 +10,16 @@
 EXTENDS Box, RecordLoop
 
 R(cond, why) == IF cond THEN {} ELSE {why}
+(* Scope (binding): only behaviour named by the statement of C13 may become a VIOLATION:
+     "contains_point is membership, intersection of two boxes contains exactly the common points and
+      is the null box whenever the boxes do not intersect, intersects holds for non-empty boxes exactly
+      when a common point exists, contains(outer, inner) holds for non-empty inner exactly when inner
+      is a subset, extend_bounding_box of two non-empty boxes is the smallest box containing both, and
+      size/pos/max, corner_points, shrink and stretch_absolute are consistent with that point set."
+   Everything else that is judged here (constructors other than (min,max), init_max, init_dim, null,
+   extend_bounding_box(box, point), center, distance / interval_distance, ==, structure_cast,
+   operator<<) is OBSERVED ONLY: its reasons carry the prefix "obs:" and never reject a record. *)
+Obs(S) == {"obs:" \o w : w \in S}
 
 (* observed box r vs. demanded box e *)
 SameBox(r, e) == IF NonEmpty(e) THEN r = e ELSE Pts(r) = {}
@@ -31,13 +41,15 @@ Box1Reasons(r) ==
     /\ Len(r.shp) = Len(r.shv) /\ Len(r.shm) = Len(r.shv) /\ Len(r.stp) = Len(r.stv) /\ Len(r.stm) = Len(r.stv), "HARNESS-PRECONDITION")
   \cup R(SameBox(Box(r.pos, r.max), a), "pos-max")
   \cup R(ne => (r.size = Size(BoundingBox(Pts(a))) /\ Cardinality(Pts(a)) = ProdTo(r.size, n)), "size")
-  \cup R(SameBox(Box(r.imp, r.imm), a), "init_max")
-  \cup R(\A k \in 1..Len(r.idp) : SameBox(Box(r.idp[k], r.idm[k]), a), "init_dim")
-  \cup R(\A k \in 1..Len(r.pdp) : SameBox(Box(r.pdp[k], r.pdm[k]), a), "constructor-pos-dim")
+  \cup Obs(R(SameBox(Box(r.imp, r.imm), a), "init_max"))
+  \cup Obs(R(\A k \in 1..Len(r.idp) : SameBox(Box(r.idp[k], r.idm[k]), a), "init_dim"))
+  \cup Obs(R(\A k \in 1..Len(r.pdp) : SameBox(Box(r.pdp[k], r.pdm[k]), a), "constructor-pos-dim"))
+  \cup Obs(R(Box(r.scp, r.scm) = a \/ (r.T = "u32" /\ ~Proper(a)), "structure_cast"))
+  \cup Obs(R(NoSpacesB(r.text) = BoxText(a) \/ (r.T = "u32" /\ ~Proper(a)), "output-text"))
   \cup R(\A k \in 1..Len(r.pts) : (r.cp[k] = 1) <=> SContainsPoint(a, r.pts[k]), "contains_point")
   \cup R(ne => ({r.corners[k] : k \in 1..Len(r.corners)} = Corners(BoundingBox(Pts(a))) /\ Len(r.corners) = Pow(2, n)), "corner_points")
-  \cup R(ne => r.center = Center(a), "center")
-  \cup R(ne => \A k \in 1..Len(r.pts) : Box(r.epp[k], r.epm[k]) = FExtendPoint(a, r.pts[k]), "extend_bounding_box-point")
+  \cup Obs(R(ne => r.center = Center(a), "center"))
+  \cup Obs(R(ne => \A k \in 1..Len(r.pts) : Box(r.epp[k], r.epm[k]) = FExtendPoint(a, r.pts[k]), "extend_bounding_box-point"))
   \cup R(\A k \in 1..Len(r.shv) :
            LET s == Box(r.shp[k], r.shm[k]) IN
            /\ Pts(s) = {p \in Pts(a) : [i \in 1..n |-> p[i] - r.shv[k][i]] \in Pts(a) /\ [i \in 1..n |-> p[i] + r.shv[k][i]] \in Pts(a)}
@@ -57,9 +69,9 @@ PairReasons(r, a, pa, k, b) ==
   \cup R(Pts(in) = common, "intersection-points")
   \cup R((both /\ common = {}) => in = Null(n), "intersection-not-null-box")
   \cup R(both => Box(r.exp[k], r.exm[k]) = BoundingBox(pa \cup pb), "extend_bounding_box")
-  \cup R((both /\ r.dist # <<>>) =>
-           \A i \in 1..n : r.dist[k][i] \in IntervalDistances(a.pos[i], a.max[i], b.pos[i], b.max[i]), "distance")
-  \cup R((r.eq[k] = 1) <=> (a = b), "comparison")
+  \cup Obs(R((both /\ r.dist # <<>>) =>
+               \A i \in 1..n : r.dist[k][i] \in IntervalDistances(a.pos[i], a.max[i], b.pos[i], b.max[i]), "distance"))
+  \cup Obs(R((r.eq[k] = 1) <=> (a = b), "comparison"))
 
 Box2Reasons(r) ==
   LET a == Box(r.ap, r.am)
@@ -80,6 +92,19 @@ Box2Reasons(r) ==
 BoxReasons(r) ==
   CASE r.f = "box1" -> Box1Reasons(r)
     [] r.f = "box2" -> Box2Reasons(r)
-    [] r.f = "null" -> R(r.pos = Zero(r.N) /\ r.max = Zero(r.N) /\ r.size = Zero(r.N), "null")
+    [] r.f = "null" -> Obs(R(r.pos = Zero(r.N) /\ r.max = Zero(r.N) /\ r.size = Zero(r.N), "null"))
+    [] r.f = "interval_distance" ->
+         (* observed only: math::interval_distance is not named by the statement.  Judged against exactly
+            what its documentation promises (Box.tla, IntervalDistanceDoc), for non-empty intervals, in
+            both argument orders. *)
+         LET ne(x1, x2) == x1 < x2
+             K == {k \in 1..Len(r.bs) : ne(r.a1, r.a2) /\ ne(r.bs[k][1], r.bs[k][2])}
+             doc(k) == IntervalDistanceDoc(r.a1, r.a2, r.bs[k][1], r.bs[k][2])
+             touch(k) == NestedTouching(r.a1, r.a2, r.bs[k][1], r.bs[k][2])
+         IN
+         R(Len(r.d12) = Len(r.bs) /\ Len(r.d21) = Len(r.bs), "HARNESS-PRECONDITION")
+         \cup Obs(R(\A k \in K : touch(k) => (r.d12[k] = doc(k) /\ r.d21[k] = doc(k)), "nested-touching-not-zero"))
+         \cup Obs(R(\A k \in K : ~touch(k) => (r.d12[k] = doc(k) /\ r.d21[k] = doc(k)), "value"))
+         \cup Obs(R(\A k \in K : r.d12[k] = r.d21[k], "not-symmetric"))
     [] OTHER -> {"unknown-record-kind"}
 =============================================================================
